@@ -338,12 +338,18 @@ func (res *Resource) selectVersion() {
 
 	// 1) Dev release if dev mode is active and ignore blacklisting
 	if res.registry.DevMode {
-		// Get last version, as this will be v0.0.0, if available.
-		rv := res.Versions[len(res.Versions)-1]
-		// Check if it's v0.0.0.
-		if rv.semVer.Equal(devVersion) && rv.Available {
-			res.SelectedVersion = rv
-			return
+		// Search from the end, as v0.0.0 sorts last, except for pre-releases
+		// of v0.0.0.
+		for i := len(res.Versions) - 1; i >= 0; i-- {
+			rv := res.Versions[i]
+			if rv.semVer.GreaterThan(devVersion) {
+				break
+			}
+			// Check if it's v0.0.0.
+			if rv.semVer.Equal(devVersion) && rv.Available {
+				res.SelectedVersion = rv
+				return
+			}
 		}
 	}
 
